@@ -193,6 +193,36 @@ META["C18"] = {
     "level_note": "trusts testing/synctest; the proxy only adds scheduling points in front of the real target machine",
 }
 
+RPC_COMPONENTS = {"real": MACHINE_REAL + ["pkg/rpc Server (export tracer, push ticker, Remote* handlers)", "cenkalti/rpc2 + encoding/gob", "pkg/rpc Client (handshake, reconnect, call retries, clock updates)", "pkg/rpc NetworkMachine"], "stub": ["the network: in-memory listener/conn pairs whose deliveries, stalls, cuts and dial failures are scheduled by the simulator (TCP order is kept inside a connection)"]}
+META["C09"] = {
+    "budget": {"quick": 40, "thorough": 900},
+    "stall_s": 90,
+    "deadlock_is_violation": True,
+    "rule": "one run = source machine with 1..5 user states + real rpc.Server + real rpc.Client/NetworkMachine over the simulated network, sync configuration drawn per run (schema / no schema, allowed / skipped lists, shallow clocks, per-mutation sync, push interval 0 / 1ms / 250ms / 2s), a local mutator on the source, a remote mutator through the network machine (Add/Remove/AddNS), a nemesis (connection cut, stall + heal, dial failures, time jumps) and cooperative fault sites (push dropped after being accounted, push skipped as busy), scheduling points between a reply being computed and written and at the fork of every push; non-trivial = every run; distinct = distinct event-log hashes",
+    "components": RPC_COMPONENTS,
+    "assumptions": [
+        "harness rules from the lock map of pkg/rpc: source handlers never park (Remote* run them under lockExport), one client-issued call in flight at a time, network-machine tracers never park, machine-level hooks are off",
+        "loss, duplication and reordering are injected at connection granularity only (cut), never inside a stream",
+        "liveness is judged 90 s of fake time after the last fault with the links healed; one explicit client Sync() is allowed when pushes are disabled",
+    ],
+    "probes": ["fault-cut", "fault-stall", "fault-dialfail", "fault-time-jump", "stale-before-final-sync"],
+    "level_text": "seeded search over source histories, sync configurations, push/reply interleavings and connection faults; convergence after healing, every clock the mirror ever exposes is a source snapshot reached in source order, remote mutation results equal the source's and are visible locally on return, nothing blocks for ever",
+    "level_note": "trusts testing/synctest, the simulated network (ordered streams, deadlines on the fake clock), rpc2/gob run real",
+}
+META["C10"] = {
+    "budget": {"quick": 40, "thorough": 900},
+    "stall_s": 90,
+    "rule": "the C09 system with 1..6 user states and mostly fault-free links: every (previous snapshot, next snapshot) pair the server turns into an update message (pushes, mutation replies, per-mutation chains) is applied by the real client to the real mirror and the mirror's new clock must be a source snapshot in source order (so a wrong index space, delta, queue or machine tick shows up as a clock the source never had); drift is injected by dropping accounted pushes and by reordering a push against a reply; non-trivial = every run; distinct = distinct event-log hashes",
+    "components": RPC_COMPONENTS,
+    "assumptions": [
+        "the exhaustive 0..4 delta enumeration of the quantifier is not reproduced (that is enumeration, not simulation); the deltas that occur are whatever the generated histories produce",
+        "drift whose tick sum difference is 0 mod 256 is outside the statement",
+    ],
+    "probes": [],
+    "level_text": "seeded search over snapshot pairs as produced by real histories under every sync mode; decides round-trip exactness and checksum rejection through the mirror-is-a-source-snapshot monitor on the real encoder/decoder pair",
+    "level_note": "same trusted base as C09",
+}
+
 NOT_YET = "check not built yet in this session (planned, see DESIGN.md section 5)"
 NOT_APPLICABLE = {
     "C19": "no schedule, clock, fault or multi-party behaviour: a static well-formedness scan of schema literals plus an exhaustive breadth-first enumeration of reachable active sets, i.e. bounded model checking, not deterministic simulation (DESIGN.md section 6)",
